@@ -49,6 +49,9 @@ Qed.
 Lemma unsqueeze_2_0 : forall {X} A B (d : list X), unsqueeze (mkTn [A; B] d) 0 = Some (mkTn [1; A; B] d).
 Proof. reflexivity. Qed.
 
+Lemma arange_nat : forall n, arange (Z.of_nat n) = Some (mkTn [n] (map Z.of_nat (seq 0 n))).
+Proof. intros. unfold arange. replace (Z.of_nat n <? 0)%Z with false by lia. now rewrite Nat2Z.id. Qed.
+
 (* ---- the minimum along dimension 0 of (A x B), keepdim ---------------------------------------------------------- *)
 Definition argmin_2 (A B : nat) (g : nat -> nat -> fx) : list Z :=
   map (fun j => let f := map (fun i => g i j) (seq 0 A) in Z.of_nat (first_at (fmin_list f) f)) (seq 0 B).
